@@ -11,7 +11,7 @@ import time
 from harness.core import CaseResult, hit, rng_for
 
 RULE = ('side=server: stall point in {after banner, after EHLO / MAIL / RCPT / NOOP / RSET, in the middle of a command line, a command line trickled byte by '
-        'byte, after 354, inside the message data, message data trickled, after the end-of-data reply, after an AUTH challenge, after the STARTTLS go-ahead, '
+        'byte, after 354, inside the message data, message data trickled, after the end-of-data reply, after an AUTH challenge (first, after an initial response, second), after the STARTTLS go-ahead, '
         'before an immediate-TLS handshake, at the closing of a TLS session} ; side=relay: stall stage in {connect, banner, EHLO, HELO, STARTTLS reply, '
         'STARTTLS handshake, immediate TLS, AUTH, MAIL, RCPT, DATA, end-of-data, RSET, QUIT} x PIPELINING on/off x SMTP/LMTP; side=pipe, http: the program / '
         'server never answers. distinct = distinct case descriptor; non-trivial = every case.')
@@ -21,7 +21,7 @@ SLACK = 1.2
 WATCHDOG = 3.0
 
 SERVER_POINTS = ['after-banner', 'after-ehlo', 'after-mail', 'after-rcpt', 'after-noop', 'after-rset', 'mid-line', 'trickle-line', 'after-354',
-                 'inside-data', 'trickle-data', 'after-eod', 'auth-challenge', 'starttls-handshake', 'tls-immediate', 'tls-close']
+                 'inside-data', 'trickle-data', 'after-eod', 'auth-challenge', 'auth-initial', 'auth-second', 'starttls-handshake', 'tls-immediate', 'tls-close']
 RELAY_STAGES = ['connect', 'banner', 'ehlo', 'helo', 'starttls', 'starttls-handshake', 'tls-immediate', 'auth', 'mail', 'rcpt', 'data', 'eod', 'rset', 'quit', 'tls-close']
 
 
@@ -81,8 +81,9 @@ def run_server(case, model):
         def enqueue(self, env):
             return [(env, 'id')]
     point = case['point']
-    needs_tls = point in ('starttls-handshake', 'tls-immediate', 'tls-close', 'auth-challenge')
-    edge = SmtpEdge(None, NullQueue(), auth=(point == 'auth-challenge'), context=tls_context() if needs_tls else None,
+    is_auth = point in ('auth-challenge', 'auth-initial', 'auth-second')
+    needs_tls = point in ('starttls-handshake', 'tls-immediate', 'tls-close') or is_auth
+    edge = SmtpEdge(None, NullQueue(), auth=is_auth, context=tls_context() if needs_tls else None,
                     tls_immediately=(point == 'tls-immediate'), command_timeout=CMD_T, data_timeout=DATA_T, hostname='edge.example')
     a, b = socket.socketpair()
     t_end = {}
@@ -145,7 +146,7 @@ def run_server(case, model):
                         trickler = gevent.spawn(trickle)
                     elif point == 'after-noop':
                         send(b'NOOP\r\n'); reply(); ref['t'] = time.time()
-                    elif point in ('starttls-handshake', 'tls-close', 'auth-challenge'):
+                    elif point in ('starttls-handshake', 'tls-close') or is_auth:
                         send(b'STARTTLS\r\n'); reply(); ref['t'] = time.time()
                         if point == 'starttls-handshake':
                             steps = ['command:0', 'command:0', 'starttlshandshake:inf']
@@ -157,9 +158,14 @@ def run_server(case, model):
                             send(b'EHLO client.example\r\n'); reply(); ref['t'] = time.time()
                             # now silent: 421 after the command timeout, then the close must not wait for our close_notify for ever
                             steps = ['command:0', 'command:inf']
-                            if point == 'auth-challenge':
-                                send(b'AUTH LOGIN\r\n')
+                            if is_auth:
+                                # silent after the first challenge / after the challenge that follows an initial response /
+                                # after the second challenge
+                                send(b'AUTH LOGIN dXNlcg==\r\n' if point == 'auth-initial' else b'AUTH LOGIN\r\n')
                                 code = reply(); ref['t'] = time.time()
+                                if point == 'auth-second' and code == 334:
+                                    send(b'dXNlcg==\r\n')
+                                    code = reply(); ref['t'] = time.time()
                                 steps = ['command:0', 'command:0', 'authresponse:inf'] if code == 334 else ['command:0', 'command:inf']
                     else:
                         send(b'MAIL FROM:<s@example.com>\r\n'); reply(); ref['t'] = time.time()
@@ -222,7 +228,7 @@ def run_server(case, model):
         pass
     total, ending = model_expect(model, 'server', steps)
     expect = int(ending.split(':')[2]) / 1000.0 if ending.startswith('timeout') else None
-    if point in ('tls-close', 'auth-challenge') and expect is not None:
+    if (point == 'tls-close' or is_auth) and expect is not None:
         # after the 421 the session is closed; the TLS shutdown is one more wait in the command scope
         t2, e2 = model_expect(model, 'server', ['close:inf'])
         expect_hi = expect + int(e2.split(':')[2]) / 1000.0
